@@ -21,7 +21,8 @@ EXPLANATION = (
     "re-serialises without witness for segwit transactions, and every mutator (add_inputs/add_outputs/sign) resets "
     "all three serialisation caches and the cached id."
 )
-TECHNIQUE = "static analysis: reader/writer operation-sequence abstraction compared with a declared layout table, struct-format folding, exact guard dominance of the varint ladder, cache-invalidation who-may-write"
+EXACTNESS = "Second pass (DESIGN.md §10, exactness / completeness halves) — txid / hash / raw caches computed exactly when empty with the stated value, `_add` numbering and reset, `_serialize` defaults and return, `_read_struct`."
+TECHNIQUE = "static analysis: reader/writer operation-sequence abstraction compared with a declared layout table, struct-format folding, exact guard dominance of the varint ladder, cache-invalidation who-may-write; exact fact-set comparison of the tests dominating each effect and refusal (effect / refusal tables), fall-through path queries"
 NOT_DECIDED = "byte equality on concrete transactions (follows from the decided agreement only modulo struct/BytesIO, which are trusted)"
 ASSUMPTIONS = ["struct.Struct packs as documented; BytesIO reads what was written"]
 
